@@ -157,8 +157,29 @@ def _install_probe() -> None:
             if rec is not None and ok and getattr(rec, "tick_hook", None) is not None:
                 rec.tick_hook(self, tick)
 
+    orig_run = R.run
+
+    async def run(self, *a, **k):
+        rec = CUR
+        span = None
+        if rec is not None:
+            try:
+                rid = self.adapter.run_id
+            except Exception:  # noqa: BLE001
+                rid = None
+            span = {"run_id": rid, "t0": VClock.t, "t1": None, "runner": id(self)}
+            if not hasattr(rec, "runner_spans"):
+                rec.runner_spans = []
+            rec.runner_spans.append(span)
+        try:
+            return await orig_run(self, *a, **k)
+        finally:
+            if span is not None:
+                span["t1"] = VClock.t
+
     R.__init__ = __init__
     R._process_tick = _process_tick
+    R.run = run
 
 
 def _snapshot(runner, tick, ok: bool, rec: Rec) -> dict:
